@@ -106,6 +106,10 @@ package geom
 
 //@ func Polygon.InteriorRingN
 //@   requires 0 <= n && n + 1 < len(p.rings)
+//@   ensures same(result, p.rings[n+1])
+//@ func Polygon.ExteriorRing
+//@   ensures len(p.rings) > 0 ==> same(result, p.rings[0])
+//@   ensures len(p.rings) == 0 ==> len(result.seq.floats) == 0 && result.seq.ctype == p.ctype
 //@ func MultiPoint.PointN
 //@   requires 0 <= n && n < len(m.points)
 //@   ensures same(result, m.points[n])
@@ -154,8 +158,6 @@ package geom
 //@ func GeometryCollection.DumpCoordinates
 //@   trusted
 //@ func GeometryCollection.Dump
-//@   trusted
-//@ func Polygon.Centroid
 //@   trusted
 //@ func MultiPolygon.Centroid
 //@   trusted
@@ -229,12 +231,12 @@ package geom
 //@   trusted
 //@ func centroidOfRing
 //@   trusted
-//@ func signedAreaOfLinearRing
-//@   trusted
+//@   defines same(result, ufn(ringcent, XY, ring))
 //@ func SignedArea
 //@   trusted
 //@ func newAreaOptionSet
 //@   trusted
+//@   defines same(result, ufn(areaopts, areaOptionSet, opts))
 //@ func GeometryCollection.walk
 //@   trusted
 //@ func LineString.asLines
